@@ -580,13 +580,16 @@ def query_csv(query_text, input_path, input_delim, input_policy, output_path, ou
             rbql_engine.set_debug_mode()
         rbql_engine.query(query_text, input_iterator, output_writer, output_warnings, join_tables_registry, user_init_code)
     finally:
-        if close_input_on_finish:
-            input_stream.close()
-        if close_output_on_finish:
-            close_ignoring_broken_pipe(output_stream)
-        if join_tables_registry:
-            join_tables_registry.finish()
-            output_warnings += join_tables_registry.get_warnings()
+        try:
+            if close_input_on_finish:
+                input_stream.close()
+            if close_output_on_finish:
+                close_ignoring_broken_pipe(output_stream)
+        finally:
+            # Closing the output flushes it and can fail (disk full, I/O error): the join table file must be released anyway.
+            if join_tables_registry:
+                join_tables_registry.finish()
+                output_warnings += join_tables_registry.get_warnings()
 
 
 def set_debug_mode():
